@@ -11,6 +11,7 @@ CONSTANTS
   Keys <- MC_Keys
   Deviations = {}
   CanonName = "sac"
+  Donated = 0
   Small = TRUE
 INIT Init
 NEXT Next
